@@ -3,6 +3,7 @@
   freshness of job identities is kept by every mutator.
 -/
 import YashModel.Fork.Lemmas
+import YashModel.Fork.RedirLemmas
 namespace YashModel.Fork
 
 theorem entryEnv_congr (c1 c2 : List (String × String)) (h : Proc.forkFrom c1 = Proc.forkFrom c2) (k : Kind)
@@ -61,11 +62,10 @@ theorem applyOpCore_jobsFresh (sh : Shell) (op : Op) (h : JobsFresh sh.env.jobs)
   | cd d =>
     unfold applyOpCore; simp only []
     split <;> exact h
-  | fdd n m =>
-    unfold applyOpCore; simp only []
-    split
-    · split <;> exact h
-    · exact h
+  | fdw n f => show JobsFresh (redirOp sh n (.file f)).env.jobs; rw [redirOp_env]; exact h
+  | fdr n => show JobsFresh (redirOp sh n (.file "oin")).env.jobs; rw [redirOp_env]; exact h
+  | fdd n m => show JobsFresh (redirOp sh n (.copy m)).env.jobs; rw [redirOp_env]; exact h
+  | fdc n => show JobsFresh (redirOp sh n .close).env.jobs; rw [redirOp_env]; exact h
   | raise sig =>
     unfold applyOpCore; simp only []
     split
